@@ -2,7 +2,7 @@
 import ast
 
 from ..model import AnalysisError, Model, walk_no_nested, norm_stmt
-from .. import flow, protocol, dispatch, siblings, evalexpr
+from .. import flow, protocol, dispatch, siblings, evalexpr, sem, bitmachine
 
 EXPLANATION = (
     'Decided: (R1) the Encoder/Decoder primitive pairs of per.py use the same boundary tables and these equal the X.691 constants: constrained '
@@ -21,48 +21,47 @@ UPER = 'asn1tools/codecs/uper.py'
 KM_STRINGS = ['NumericString', 'PrintableString', 'IA5String', 'BMPString', 'VisibleString']
 SIZE_KINDS = ['SEQUENCE OF', 'SET OF', 'OCTET STRING', 'BIT STRING'] + KM_STRINGS
 
-# X.691 11.5.7 (aligned variant), as (representative range, expected action)
-CWN_ORACLE = [(1, ('F', 'number_of_bits')), (2, ('F', 'number_of_bits')), (255, ('F', 'number_of_bits')), (256, ('A', 'F', 8)),
-              (257, ('A', 'F', 16)), (65535, ('A', 'F', 16)), (65536, ('A', 'F', 16)), (65537, ('A', 'F', 'number_of_bits')),
-              (2 ** 32, ('A', 'F', 'number_of_bits'))]
+# ---------------------------------------------------------------- X.691 reference (the oracle of R1)
+def ref_cwn(prefix, value, minimum, maximum, nb):
+    """X.691 11.5.7 (aligned variant) for a constrained whole number whose field width nb the caller computed."""
+    rng = maximum - minimum + 1
+    v = value - minimum
+    bits = prefix
+    if rng <= 255:
+        return bits + (format(v, '0%db' % nb) if nb else '')
+    bits += '0' * (-len(bits) % 8)
+    if rng == 256:
+        return bits + format(v, '08b')
+    if rng <= 65536:
+        return bits + format(v, '016b')
+    return bits + format(v, '0%db' % nb)
 
 
-def cwn_actions(f, rng):
-    """Interpret the if-chain of append/read_constrained_whole_number for one range value: sequence of
-    ('A') align_always and ('F', width) field calls."""
-    env = {'_range': rng}
-    acts = []
+def ref_length_determinant(n):
+    """X.691 11.9.3.6-8 -> (octets as a bit string, number of items covered by this determinant)"""
+    if n < 128:
+        return format(n, '08b'), n
+    if n < 16384:
+        return format(0x8000 | n, '016b'), n
+    k = min(n // 16384, 4)
+    return format(0xc0 | k, '08b'), k * 16384
 
-    def block(stmts):
-        for s in stmts:
-            if isinstance(s, ast.If):
-                try:
-                    t = evalexpr.ev(s.test, env)
-                except evalexpr.Unsupported:
-                    raise AnalysisError('%s: cannot evaluate %s' % (f.name, ast.unparse(s.test)))
-                block(s.body if t else s.orelse)
-            else:
-                for c in ast.walk(s):
-                    if isinstance(c, ast.Call) and isinstance(c.func, ast.Attribute) and isinstance(c.func.value, ast.Name) and c.func.value.id == 'self':
-                        if c.func.attr in ('align_always', 'align'):
-                            acts.append('A' if c.func.attr == 'align_always' else 'a')
-                        elif c.func.attr in ('append_non_negative_binary_integer', 'read_non_negative_binary_integer'):
-                            w = c.args[-1]
-                            acts.append('F')
-                            acts.append(w.value if isinstance(w, ast.Constant) else ast.unparse(w))
-    # skip the statements that compute _range
-    body = [s for s in f.body if not (isinstance(s, ast.Expr) and isinstance(s.value, ast.Constant))]
-    rest = []
-    seen_range = False
-    for s in body:
-        if isinstance(s, ast.Assign) and ast.unparse(s.targets[0]) == '_range':
-            seen_range = ast.unparse(s.value).replace(' ', '') in ('maximum-minimum+1', '(maximum-minimum+1)')
-            continue
-        rest.append(s)
-    if not seen_range:
-        raise AnalysisError('%s: `_range = maximum - minimum + 1` not found' % f.name)
-    block(rest)
-    return tuple(acts)
+
+def ref_nsnnwn_small(v):
+    """X.691 11.6.1: 0..63 -> a zero bit and a 6-bit field"""
+    return '0' + format(v, '06b')
+
+
+def ref_normally_small_length(n):
+    """X.691 11.9.3.4: 1..64 -> 0 + (n-1) in 6 bits; above: 1 followed by the general length determinant"""
+    if n <= 64:
+        return '0' + format(n - 1, '06b')
+    return '1' + ref_length_determinant(n)[0]
+
+
+PAD = '10' * 40        # what follows the encoding in the stream: a decoder that reads too much does not run dry
+CWN_RANGES = [1, 2, 3, 128, 254, 255, 256, 257, 1000, 65535, 65536, 65537, 2 ** 24, 2 ** 32]
+LENGTHS = [0, 1, 2, 126, 127, 128, 129, 255, 256, 16382, 16383, 16384, 16385, 32767, 32768, 32769, 49151, 49152, 49153, 65535, 65536, 65537, 100000, 2 ** 20]
 
 
 def ints_in(f):
@@ -95,101 +94,147 @@ def check(ctx):
     ctx.rule('C05.R6', 'E1 conformance of per/uper classes')
     ctx.rule('C05.R7', 'Encoder.number_of_bits not zeroed after an append')
 
-    # ---- R1 constrained whole number
+    # ---- R1: the derived primitives are evaluated (sa/bitmachine.py) on boundary arguments; the emitted bits must equal X.691
+    #          and the Decoder primitive must read back the same value from them
+    E = bitmachine.Machine(model, enc, 'enc')
+    D = bitmachine.Machine(model, dec, 'dec')
+
+    def r1(what, node, cases):
+        """cases: iterable of (label, thunk) ; thunk() -> None when fine, else a message"""
+        n_ok = n_und = 0
+        first_bad = None
+        und = None
+        for label, thunk in cases:
+            try:
+                msg = thunk()
+            except bitmachine.Undecided as e:
+                n_und += 1
+                und = und or '%s: %s' % (label, e)
+                continue
+            except bitmachine.Raised as e:
+                msg = 'raises %s' % e.name
+            if msg is None:
+                n_ok += 1
+            elif first_bad is None:
+                first_bad = (label, msg)
+        status = 'VIOLATION' if first_bad else ('ok' if n_ok else 'undecided')
+        ctx.instance('C05.R1', '%s: %d boundary cases evaluated, %d undecided' % (what, n_ok, n_und), status, und or '', nontrivial=n_ok > 0, node=node, file=PER)
+        if und and not first_bad:
+            ctx.note('C05.R1 %s undecided: %s' % (what, und))
+        if first_bad:
+            ctx.violation('C05.R1', PER, node, Model.qual(node), '%s, %s: %s' % (what, first_bad[0], first_bad[1]), stmt=what)
+
     fe = enc.methods.get('append_constrained_whole_number')
     fd = dec.methods.get('read_constrained_whole_number')
     if fe is None or fd is None:
         raise AnalysisError('constrained whole number primitives vanished')
-    for rng, want in CWN_ORACLE:
-        ae = cwn_actions(fe, rng)
-        ad = cwn_actions(fd, rng)
-        ok = ae == ad == want
-        ctx.instance('C05.R1', 'constrained whole number, range %d: encoder %s decoder %s X.691 %s' % (rng, ae, ad, want), 'ok' if ok else 'VIOLATION', node=fe, file=PER)
-        if not ok:
-            who = fe if ae != want else fd
-            ctx.violation('C05.R1', PER, who, Model.qual(who),
-                          'for a constrained whole number of range %d X.691 11.5.7 prescribes %s; the encoder does %s, the decoder %s (A = octet-align, F w = field of w bits)'
-                          % (rng, want, ae, ad), stmt='constrained whole number range %d' % rng)
-    # value - minimum on the encode side, + minimum on the decode side
-    ok = any(isinstance(n, ast.AugAssign) and isinstance(n.op, ast.Sub) and ast.unparse(n.target) == 'value' and ast.unparse(n.value) == 'minimum' for n in walk_no_nested(fe)) and \
-        any(isinstance(n, ast.Return) and ast.unparse(n.value).replace(' ', '') == 'value+minimum' for n in walk_no_nested(fd))
-    ctx.instance('C05.R1', 'constrained whole number offset: encode value - minimum, decode value + minimum', 'ok' if ok else 'VIOLATION', node=fe, file=PER)
-    if not ok:
-        ctx.violation('C05.R1', PER, fe, Model.qual(fe), 'the offset from the lower bound is no longer subtracted on encode and added on decode', stmt='offset from minimum')
 
-    # ---- R1 length determinant
+    def cwn_case(rng, value, minimum, prefix):
+        def thunk():
+            maximum = minimum + rng - 1
+            nb = (rng - 1).bit_length()
+            bits, _ = E.run('append_constrained_whole_number', [value, minimum, maximum, nb], prefix)
+            want = ref_cwn(prefix, value, minimum, maximum, nb)
+            if bits != want:
+                return 'X.691 11.5.7 prescribes %s after the prefix %s, the encoder emits %s' % (want[len(prefix):] or '(nothing)', prefix, bits[len(prefix):] or '(nothing)')
+            got, pos = D.run('read_constrained_whole_number', [minimum, maximum, nb], want + PAD, len(prefix))
+            if got != value or pos != len(want):
+                return 'the decoder reads %r (ending at bit %d) from the %d-bit encoding of %d' % (got, pos, len(want), value)
+            return None
+        return thunk
+    cases = []
+    for rng in CWN_RANGES:
+        for minimum in (0, 5, -3):
+            for value in sorted({minimum, minimum + rng - 1, minimum + (rng - 1) // 2}):
+                cases.append(('range %d, value %d in %d..%d' % (rng, value, minimum, minimum + rng - 1), cwn_case(rng, value, minimum, '101')))
+    r1('constrained whole number', fe, cases)
+
     fe = enc.methods['append_length_determinant']
     fd = dec.methods['read_length_determinant']
-    # encoder: chain of `length < K` tests
-    chain = []
-    s = [x for x in fe.body if isinstance(x, ast.If)][0]
-    while True:
-        t = s.test
-        k = evalexpr.const_int(t.comparators[0]) if isinstance(t, ast.Compare) and isinstance(t.ops[0], ast.Lt) and ast.unparse(t.left) == 'length' else None
-        chain.append((k, s.body))
-        if len(s.orelse) == 1 and isinstance(s.orelse[0], ast.If):
-            s = s.orelse[0]
-        else:
-            chain.append((None, s.orelse))
-            break
-    bounds = [k for k, _b in chain]
-    ok = bounds == [128, 16384, 32768, 49152, 65536, None]
-    ctx.instance('C05.R1', 'length determinant encoder boundaries %s' % bounds, 'ok' if ok else 'VIOLATION', node=fe, file=PER)
-    if not ok:
-        ctx.violation('C05.R1', PER, fe, Model.qual(fe), 'length determinant boundaries %s differ from X.691 11.9 [128, 16384, 32768, 49152, 65536]' % bounds, stmt='length determinant boundaries')
-    enc_frag = {}
-    for k, body in chain[2:]:
-        marker = None
-        ln = None
-        for st in body:
-            if isinstance(st, ast.Assign) and ast.unparse(st.targets[0]) == 'encoded' and isinstance(st.value, ast.Constant) and isinstance(st.value.value, bytes):
-                marker = st.value.value[0]
-            if isinstance(st, ast.Assign) and ast.unparse(st.targets[0]) == 'length':
-                ln = evalexpr.const_int(st.value)
-        enc_frag[marker] = ln
-    dec_frag = None
-    for n in walk_no_nested(fd):
-        if isinstance(n, ast.Dict):
-            dec_frag = {evalexpr.const_int(k): evalexpr.const_int(v) for k, v in zip(n.keys, n.values)}
-    oracle = {0xc1: 16384, 0xc2: 32768, 0xc3: 49152, 0xc4: 65536}
-    ok = enc_frag == dec_frag == oracle
-    ctx.instance('C05.R1', 'fragment markers: encoder %s decoder %s' % (enc_frag, dec_frag), 'ok' if ok else 'VIOLATION', node=fd, file=PER)
-    if not ok:
-        who = fe if enc_frag != oracle else fd
-        ctx.violation('C05.R1', PER, who, Model.qual(who), 'fragmentation table: encoder %s, decoder %s, X.691 11.9.3.8 %s' % (enc_frag, dec_frag, oracle), stmt='fragment markers')
-    # short/long form masks
-    src_e = ast.unparse(fe)
-    src_d = ast.unparse(fd)
-    ok = 'bytearray([length])' in src_e and 'bytearray([128 | length >> 8, length & 255])' in src_e and \
-        'value & 128 == 0' in src_d.replace('(', '').replace(')', '') and 'value & 192 == 128' in src_d.replace('(', '').replace(')', '') and \
-        'value & 127) << 8' in src_d
-    ctx.instance('C05.R1', 'length determinant 1- and 2-octet forms (0xxxxxxx / 10xxxxxx xxxxxxxx)', 'ok' if ok else 'VIOLATION', node=fe, file=PER)
-    if not ok:
-        ctx.violation('C05.R1', PER, fe, Model.qual(fe), 'the one/two-octet forms of the length determinant differ between encoder and decoder or from X.691 11.9.3.6-7', stmt='length determinant forms')
-    # the chunk generators stop below 16K on both sides
+
+    def ld_case(n):
+        def thunk():
+            bits, ret = E.run('append_length_determinant', [n], '')
+            want, covered = ref_length_determinant(n)
+            if bits != want or ret != covered:
+                return 'X.691 11.9 prescribes %s covering %d items, the encoder emits %s and reports %r' % (want, covered, bits, ret)
+            got, pos = D.run('read_length_determinant', [], want + PAD, 0)
+            if got != covered or pos != len(want):
+                return 'the decoder reads %r (ending at bit %d) from %s' % (got, pos, want)
+            return None
+        return thunk
+    r1('length determinant', fe, [('length %d' % n, ld_case(n)) for n in LENGTHS])
+
+    def ld_invalid(first):
+        def thunk():
+            try:
+                got, pos = D.run('read_length_determinant', [], format(first, '08b') + '00000000', 0)
+            except bitmachine.Raised:
+                return None
+            return 'the reserved first octet 0x%02x is accepted as length %r' % (first, got)
+        return thunk
+    r1('length determinant, reserved fragment octets', fd, [('octet 0x%02x' % v, ld_invalid(v)) for v in (0xc0, 0xc5, 0xc8, 0xff)])
+
+    # the chunk generators continue exactly while the fragment covers 16K items or more
     for c_, nm in ((enc, 'append_length_determinant_chunks'), (dec, 'read_length_determinant_chunks')):
         f = c_.methods[nm]
-        ok = any(isinstance(n, ast.If) and ast.unparse(n.test).replace(' ', '') in ('chunk_length<16384', 'length<16384') and any(isinstance(b, ast.Break) for b in n.body)
-                 for n in walk_no_nested(f))
-        ctx.instance('C05.R1', '%s stops after a fragment shorter than 16K' % Model.qual(f), 'ok' if ok else 'VIOLATION', node=f, file=PER)
-        if not ok:
+        ps = sem.paths(f)
+        stops = []
+        for p in sem.with_loop_bodies(ps or []):
+            if p.outcome[0] == 'break' and p.conds and len(p.conds[-1]) >= 6:
+                stops.append(p.conds[-1])
+        ok = None
+        def holds(c, v):
+            """truth of the literal when its non-constant operand has the value v (None: not of that form)"""
+            e = c[4]
+            if not (isinstance(e, ast.Compare) and len(e.ops) == 1):
+                return None
+            l, r = e.left, e.comparators[0]
+            if evalexpr.const_int(r) is not None and evalexpr.const_int(l) is None:
+                t = ast.Compare(ast.Constant(v), e.ops, [r])
+            elif evalexpr.const_int(l) is not None and evalexpr.const_int(r) is None:
+                t = ast.Compare(l, e.ops, [ast.Constant(v)])
+            else:
+                return None
+            return bool(evalexpr.ev(t, {})) == c[5]
+        for c in stops:
+            vals = [holds(c, v) for v in (0, 16383, 16384, 65536)]
+            if None in vals:
+                continue
+            ok = vals == [True, True, False, False]
+        ctx.instance('C05.R1', '%s stops after a fragment shorter than 16K' % Model.qual(f), 'ok' if ok else ('undecided' if ok is None else 'VIOLATION'), nontrivial=ok is not None, node=f, file=PER)
+        if ok is False:
             ctx.violation('C05.R1', PER, f, Model.qual(f), 'fragmentation must continue exactly while the fragment length is >= 16384', stmt='chunk stop test')
 
     # ---- R1 normally small
     fe = enc.methods['append_normally_small_non_negative_whole_number']
-    fd = dec.methods['read_normally_small_non_negative_whole_number']
-    ok = 'value < 64' in ast.unparse(fe) and 'self.append_non_negative_binary_integer(value, 7)' in ast.unparse(fe) and \
-        'self.read_non_negative_binary_integer(6)' in ast.unparse(fd) and 'if not self.read_bit()' in ast.unparse(fd)
-    ctx.instance('C05.R1', 'normally small non-negative whole number: < 64 -> 0 + 6 bits', 'ok' if ok else 'VIOLATION', node=fe, file=PER)
-    if not ok:
-        ctx.violation('C05.R1', PER, fe, Model.qual(fe), 'normally small non-negative whole number (X.691 11.6): values 0..63 are a 0 bit and 6 bits on both sides', stmt='normally small number')
+
+    def ns_case(v):
+        def thunk():
+            bits, _ = E.run('append_normally_small_non_negative_whole_number', [v], '')
+            if v < 64 and bits != ref_nsnnwn_small(v):
+                return 'X.691 11.6.1 prescribes %s, the encoder emits %s' % (ref_nsnnwn_small(v), bits)
+            if v >= 64 and not bits.startswith('1'):
+                return 'values above 63 must start with a 1 bit, the encoder emits %s' % bits
+            got, pos = D.run('read_normally_small_non_negative_whole_number', [], bits + PAD, 0)
+            if got != v or pos != len(bits):
+                return 'the decoder reads %r (ending at bit %d) from the %d-bit encoding %s' % (got, pos, len(bits), bits)
+            return None
+        return thunk
+    r1('normally small non-negative whole number', fe, [('value %d' % v, ns_case(v)) for v in (0, 1, 2, 31, 62, 63, 64, 65, 127, 128, 255, 256, 65535, 65536)])
     fe = enc.methods['append_normally_small_length']
-    fd = dec.methods['read_normally_small_length']
-    se, sd = ast.unparse(fe), ast.unparse(fd)
-    ok = 'value <= 64' in se and 'self.append_non_negative_binary_integer(value - 1, 7)' in se and 'self.read_non_negative_binary_integer(6) + 1' in sd
-    ctx.instance('C05.R1', 'normally small length: 1..64 -> 0 + 6 bits of (n-1)', 'ok' if ok else 'VIOLATION', node=fe, file=PER)
-    if not ok:
-        ctx.violation('C05.R1', PER, fe, Model.qual(fe), 'normally small length (X.691 11.9.3.4): n in 1..64 is a 0 bit and n-1 in 6 bits on both sides', stmt='normally small length')
+
+    def nsl_case(n):
+        def thunk():
+            bits, _ = E.run('append_normally_small_length', [n], '')
+            if bits != ref_normally_small_length(n):
+                return 'X.691 11.9.3.4 prescribes %s, the encoder emits %s' % (ref_normally_small_length(n), bits)
+            got, pos = D.run('read_normally_small_length', [], bits + PAD, 0)
+            if got != n or pos != len(bits):
+                return 'the decoder reads %r (ending at bit %d) from %s' % (got, pos, bits)
+            return None
+        return thunk
+    r1('normally small length', fe, [('length %d' % n, nsl_case(n)) for n in (1, 2, 32, 63, 64, 65, 66, 100, 126, 127)])
 
     # ---- R2
     upm = model.mod(UPER)
@@ -235,14 +280,15 @@ def check(ctx):
     for codec in ('per', 'uper'):
         tab = dispatch.table(model, codec)
         cell = tab.cells.get('SET')
-        src = ' '.join(ast.unparse(s) for s in cell.body)
-        ok = 'sort_by_tag=True' in src
+        ok = any(isinstance(n, ast.Call) and any(k.arg == 'sort_by_tag' and isinstance(k.value, ast.Constant) and k.value.value is True for k in n.keywords)
+                 for st_ in cell.body for n in ast.walk(st_))
         ctx.instance('C05.R3', "%s dispatch 'SET' passes sort_by_tag=True" % codec, 'ok' if ok else 'VIOLATION', node=cell.ctor, file=tab.rel)
         if not ok:
             ctx.violation('C05.R3', tab.rel, cell.ctor or tab.func, "%s::Compiler dispatch['SET']" % tab.rel, 'SET components are no longer put into canonical tag order (X.691 22 / X.680 8.6)', stmt='SET sort_by_tag')
     cm = model.func(PER, 'Compiler.compile_members')
-    src = ast.unparse(cm)
-    ok = 'if sort_by_tag:' in src and 'sorted(' in src and 'CLASS_PRIO' in ast.unparse(per.tree)
+    sorts = [n for n in walk_no_nested(cm) if isinstance(n, ast.Call) and ((isinstance(n.func, ast.Name) and n.func.id == 'sorted') or (isinstance(n.func, ast.Attribute) and n.func.attr == 'sort'))]
+    ok = any(any(pol and 'sort_by_tag' in ast.unparse(t) for t, pol in flow.guards_of(n, cm)) or
+             any(isinstance(a, ast.IfExp) and 'sort_by_tag' in ast.unparse(a.test) for a in flow.ancestors(n)) for n in sorts) and 'CLASS_PRIO' in per.consts
     # the sort key uses class priority then number
     ctx.instance('C05.R3', 'per compile_members sorts when sort_by_tag', 'ok' if ok else 'VIOLATION', node=cm, file=PER)
     if not ok:
@@ -280,9 +326,18 @@ def check(ctx):
 
     # ---- R5
     init = model.cls(PER, 'Enumerated').methods['__init__']
-    src = ast.unparse(init)
-    ok = 'root = sorted(root, key=itemgetter(1))' in src
-    sorted_add = any(isinstance(n, ast.Assign) and ast.unparse(n.targets[0]) == 'additions' and 'sorted(' in ast.unparse(n.value) for n in walk_no_nested(init))
+    def by_value(call):
+        for k in call.keywords:
+            if k.arg == 'key':
+                t = ast.unparse(k.value).replace(' ', '')
+                if t in ('itemgetter(1)', 'operator.itemgetter(1)') or (isinstance(k.value, ast.Lambda) and ast.unparse(k.value.body).endswith('[1]')):
+                    return True
+        return False
+    sorts = [n for n in walk_no_nested(init) if isinstance(n, ast.Call) and ((isinstance(n.func, ast.Name) and n.func.id == 'sorted') or (isinstance(n.func, ast.Attribute) and n.func.attr == 'sort'))]
+    def subject(call):
+        return ast.unparse(call.args[0]) if isinstance(call.func, ast.Name) and call.args else (ast.unparse(call.func.value) if isinstance(call.func, ast.Attribute) else '')
+    ok = any(by_value(n) and 'addition' not in subject(n) for n in sorts)
+    sorted_add = any('addition' in subject(n) for n in sorts)
     ctx.instance('C05.R5', 'per.Enumerated: root sorted by value, additions unsorted', 'ok' if ok and not sorted_add else 'VIOLATION', node=init, file=PER)
     if not ok or sorted_add:
         ctx.violation('C05.R5', PER, init, Model.qual(init), 'X.691 14: the enumeration root is indexed in ascending value order, the additions in declaration order', stmt='enumeration index order')
